@@ -8,11 +8,12 @@ namespace SpyneModel.Derive
 structure GoodFacts (F : Facts15) : Prop where
   mand : F.mandRule = .copies
   var : F.varRule = .ownPerClass
+  col : F.colCopy = .deep
 
-theorem impl_append (F : Facts15) (fuel : Nat) (name : String) (t : Nat) : Impl (appendImpl F fuel name t) :=
+theorem impl_append (F : Facts15) [DeepCopy F] (fuel : Nat) (name : String) (t : Nat) : Impl (appendImpl F fuel name t) :=
   ⟨fun _ _ _ v hv => good_appendImpl F fuel name t v hv, fun v => keeps_appendImpl F fuel name t v⟩
 
-theorem impl_insert (F : Facts15) (fuel idx : Nat) (name : String) (t : Nat) : Impl (insertImpl F fuel idx name t) :=
+theorem impl_insert (F : Facts15) [DeepCopy F] (fuel idx : Nat) (name : String) (t : Nat) : Impl (insertImpl F fuel idx name t) :=
   ⟨fun _ _ _ v hv => good_insertImpl F fuel idx name t v hv, fun v => keeps_insertImpl F fuel idx name t v⟩
 
 /-- the program of append/insert around `evolve` -/
@@ -46,6 +47,7 @@ theorem evolveOp_ext (impl : Nat → M Unit) (hi : Impl impl) (h : Heap) (ih : I
     `touched` and the public part of every existing `Attributes` as they were -/
 theorem frame_ext (F : Facts15) (gf : GoodFacts F) (fuel : Nat) (h : Heap) (ih : Inv h) (op : Op) :
     Ext h.cls.length h.attrs.length (touched F h op) h (apply F fuel h op).heap := by
+  haveI : DeepCopy F := ⟨gf.col⟩
   cases hop : op.derives with
   | true =>
     have e := derive_ext F gf.mand fuel h op hop
